@@ -288,6 +288,10 @@ func (p *c12) exec(t *testing.T, scAny any) Outcome {
 			if !spec.canFailOpen(j) {
 				return
 			}
+		} else if strings.HasSuffix(where, "!seek") {
+			if !spec.canFailSeek(j) {
+				return
+			}
 		} else if !spec.canFail(j) {
 			return
 		}
@@ -363,6 +367,8 @@ func (p *c12) exec(t *testing.T, scAny any) Outcome {
 			}
 			// the source has vanished between attaching and rendering
 			runProducer(j, "start!open", "", -1)
+			// the source can be read but not rewound
+			runProducer(j, "end!seek", "", -1)
 		}
 		// combinations: one producer fault and one sink fault, sampled
 		r := sim.NewRand(sc.Seed)
